@@ -18,6 +18,10 @@ sc3):
                 documentation states; arguments are deep-copied before the
                 call and compared afterwards (argument mutation), and the call
                 is repeated with the same argument objects.
+* concurrency   'conc' shards (vf/c19_conc.py): a fresh 2-50 channel Env is used
+                for the first time by 3-4 threads at once (barrier) under yield
+                injection on Env._envgen_format; every thread's result and the
+                format asked again afterwards must equal the model's.
 """
 
 import copy
